@@ -757,7 +757,7 @@ class _Parser:
         # nodes.
         pkey = self._struct_ft_node_members_prop_name
 
-        if pkey in node:
+        if node.get(pkey) is not None:
             for member_node, ft_prop_name in self._struct_ft_member_fts_iter(node[pkey]):
                 self._resolve_ft_alias(ft_aliases_node, member_node, ft_prop_name,
                                        ctx_obj_name, alias_set)
@@ -794,7 +794,7 @@ class _Parser:
         # nodes.
         pkey = self._struct_ft_node_members_prop_name
 
-        if pkey in node:
+        if node.get(pkey) is not None:
             for member_node, ft_prop_name in self._struct_ft_member_fts_iter(node[pkey]):
                 self._apply_ft_inheritance(member_node, ft_prop_name)
 
